@@ -138,7 +138,7 @@ class Gen:
 
 
 SIMPLE = ["probe", "return", "raise", "break", "continue", "assert_false", "assert_unknown", "pass", "assert_zero", "assert_true"]
-FOR_ITERS = ["it", "[]", "[1, 2]", "range(0)", "range(2)", "()", "(1,)", "[c1]", "range(c1)"]
+FOR_ITERS = ["it", "[]", "[1, 2]", "range(0)", "range(2)", "()", "(1,)", "[c1]", "range(c1)", "iter([])", "zip()", "reversed([])", "iter([1, 2])", "zip([1], [2])", "map(str, [])", "filter(None, [0])"]
 
 
 def enumerated_shapes():
@@ -196,6 +196,13 @@ def enumerated_shapes():
         add(f"try: [{spec[0]}] except else finally", lambda g, spec=spec: g.compound("try_full", None, inner(g, spec, False)))
         add(f"try: raise except: [{spec[0]}]", lambda g, spec=spec: g.compound("try_except", None, ["raise ValueError('x')"], inner(g, spec, False)))
         add(f"[{spec[0]}] at top", lambda g, spec=spec: inner(g, spec, False))
+        # a break / continue that belongs to the OUTER loop although it stands inside an inner loop statement (in its else clause), then the statement under test
+        for jump in ("break", "continue"):
+            for outer in ("[1, 2]", "(1,)", "it"):
+                add(f"for {outer}: (for it: probe else: {jump}); [{spec[0]}]",
+                    lambda g, spec=spec, jump=jump, outer=outer: g.compound("for", outer, g.compound("for", "it", [g.probe()], [jump]) + inner(g, spec, True)))
+                add(f"for {outer}: (while c2: break else: {jump}); [{spec[0]}]",
+                    lambda g, spec=spec, jump=jump, outer=outer: g.compound("for", outer, g.compound("while", "c2", ["break"], [jump]) + inner(g, spec, True)))
         # a statement that may raise, then the statement under test, as direct children of a try / with body (the handler falls through to the tail)
         for first in ("assert_unknown", "probe"):
             for kind in ("try_except", "try_full", "try_finally", "with", "with_quiet"):
